@@ -141,7 +141,7 @@ impl Tape {
 
 #[derive(Default, Clone, Debug)]
 pub struct SimStats {
-  pub eintr: u64, pub spurious_timeout: u64, pub spurious_ready: u64, pub latency: u64, pub oversleep: u64, pub io_error: u64,
+  pub eintr: u64, pub spurious_timeout: u64, pub spurious_ready: u64, pub latency: u64, pub oversleep: u64, pub io_error: u64, pub os_enodev: u64,
   pub order_flipped: u64, pub both_devices_ready: u64, pub kbd_unplugged: u64, pub tab_unplugged: u64, pub arrival_during_drain: u64,
   pub backoff_sleeps: u64, pub multi_event_wakeups: u64, pub max_events_one_wakeup: u64, pub timer_ticks: u64, pub trace_cap_hit: u64,
   pub os_write_fault: [u64; 3], pub os_read_fault: u64, pub real_polls_compared: u64,
@@ -170,6 +170,8 @@ pub trait ByteLayer {
   fn poll_now(&mut self) -> Result<Option<Vec<VDevice>>, String>;
   /// make the next OS-level read of the keyboard (false) / tablet switch (true) fail with EBADF
   fn sabotage_reader(&mut self, tablet: bool);
+  /// the device is unplugged: from now on reads on its descriptor fail with ENODEV
+  fn unplug(&mut self, tablet: bool);
 }
 
 pub struct Sim<'a> {
@@ -301,8 +303,10 @@ impl<'a> Sim<'a> {
         e
       }
     };
-    if let Some(e) = err { if self.byte_error.is_none() { self.byte_error = Some(e); } }
+    if let Some(e) = err { if self.byte_error.is_none() { self.byte_error = Some(format!("[driver] {}", e)); } }
   }
+  /// no byte-format disagreement recorded yet (a "[driver]" note may be overwritten by one)
+  fn no_wire_error(&self) -> bool { self.byte_error.as_ref().map_or(true, |m| m.starts_with("[driver]")) }
   fn unplug_keyboard_now(&mut self) {
     if !self.kbd_ended { self.kbd_ended = true; self.kbd_notify = true; self.stats.kbd_unplugged += 1; }
   }
@@ -311,7 +315,7 @@ impl<'a> Sim<'a> {
 impl<'a> VerifDriver for Sim<'a> {
   fn register_poll(&mut self) -> Result<(), String> {
     self.maybe_fail("register_poll")?;
-    if let Some(b) = self.bytes.as_mut() { if let Err(e) = b.register() { if self.byte_error.is_none() { self.byte_error = Some(format!("the real driver's register_poll failed on pipes: {}", e)); } } }
+    if let Some(b) = self.bytes.as_mut() { if let Err(e) = b.register() { if self.byte_error.is_none() { self.byte_error = Some(format!("[driver] the real driver's register_poll failed on pipes: {}", e)); } } }
     self.trace.push(Item::Register);
     Ok(())
   }
@@ -417,9 +421,9 @@ impl<'a> VerifDriver for Sim<'a> {
       let e = match self.bytes.as_mut() {
         None => e,
         Some(b) => match b.read_kbd() {
-          Ok(Some(got)) => { if got != e && self.byte_error.is_none() { self.byte_error = Some(format!("real reader returned {} where {} was written", ev_str(&got), ev_str(&e))); } got }
-          Ok(None) => { if self.byte_error.is_none() { self.byte_error = Some(format!("real reader reported EAGAIN although {} was written", ev_str(&e))); } e }
-          Err(er) => { if self.byte_error.is_none() { self.byte_error = Some(format!("real reader failed: {}", er)); } e }
+          Ok(Some(got)) => { if got != e && self.no_wire_error() { self.byte_error = Some(format!("real reader returned {} where {} was written", ev_str(&got), ev_str(&e))); } got }
+          Ok(None) => { if self.no_wire_error() { self.byte_error = Some(format!("real reader reported EAGAIN although {} was written", ev_str(&e))); } e }
+          Err(er) => { if self.no_wire_error() { self.byte_error = Some(format!("real reader failed: {}", er)); } e }
         }
       };
       self.trace.push(Item::NextK { res: Some(e.clone()), end: false, t_out: self.now() });
@@ -427,9 +431,24 @@ impl<'a> VerifDriver for Sim<'a> {
     } else {
       if let Some(b) = self.bytes.as_mut() {
         // nothing delivered: the real reader must skip any foreign records and report EAGAIN
-        match b.read_kbd() { Ok(None) => {} Ok(Some(got)) => { if self.byte_error.is_none() { self.byte_error = Some(format!("real reader returned {} although no key event was pending", ev_str(&got))); } } Err(er) => { if self.byte_error.is_none() { self.byte_error = Some(format!("real reader failed: {}", er)); } } }
+        match b.read_kbd() { Ok(None) => {} Ok(Some(got)) => { if self.no_wire_error() { self.byte_error = Some(format!("real reader returned {} although no key event was pending", ev_str(&got))); } } Err(er) => { if self.no_wire_error() { self.byte_error = Some(format!("real reader failed: {}", er)); } } }
       }
-      if self.kbd_ended { self.trace.push(Item::NextK { res: None, end: true, t_out: self.now() }); VNext::End }
+      if self.kbd_ended {
+        // hybrid: the unplug happens at the system-call level (read fails with ENODEV) and the
+        // shipped driver decides what the loop is told
+        if let Some(b) = self.bytes.as_mut() {
+          b.unplug(false);
+          self.stats.os_enodev += 1;
+          match b.raw_next_keyboard() {
+            Ok(VNext::End) => {}
+            // reporting the unplug as a failure is as good as End: the loop must then stop with that error
+            Err(e) => { self.hw_failed = true; self.trace.push(Item::Fail { what: "next_keyboard (ENODEV reported as an error by the driver)" }); return Err(format!("{}: {}", INJECTED, e)); }
+            Ok(VNext::Busy) => { if self.byte_error.is_none() { self.byte_error = Some("[driver] the keyboard was unplugged (read fails with ENODEV) but the real driver told the loop Busy: the loop would never stop".into()); } }
+            Ok(VNext::One(e)) => { if self.byte_error.is_none() { self.byte_error = Some(format!("[driver] the keyboard was unplugged (read fails with ENODEV) but the real driver handed out {}", ev_str(&e))); } }
+          }
+        }
+        self.trace.push(Item::NextK { res: None, end: true, t_out: self.now() }); VNext::End
+      }
       else { self.trace.push(Item::NextK { res: None, end: false, t_out: self.now() }); VNext::Busy }
     };
     Ok(r)
@@ -459,18 +478,30 @@ impl<'a> VerifDriver for Sim<'a> {
       let on = match self.bytes.as_mut() {
         None => on,
         Some(b) => match b.read_tab() {
-          Ok(Some(got)) => { if got != on && self.byte_error.is_none() { self.byte_error = Some(format!("real tablet reader returned {} where {} was written", got, on)); } got }
-          Ok(None) => { if self.byte_error.is_none() { self.byte_error = Some("real tablet reader reported EAGAIN although a switch event was written".into()); } on }
-          Err(er) => { if self.byte_error.is_none() { self.byte_error = Some(format!("real tablet reader failed: {}", er)); } on }
+          Ok(Some(got)) => { if got != on && self.no_wire_error() { self.byte_error = Some(format!("real tablet reader returned {} where {} was written", got, on)); } got }
+          Ok(None) => { if self.no_wire_error() { self.byte_error = Some("real tablet reader reported EAGAIN although a switch event was written".into()); } on }
+          Err(er) => { if self.no_wire_error() { self.byte_error = Some(format!("real tablet reader failed: {}", er)); } on }
         }
       };
       self.trace.push(Item::NextT { res: Some(on), end: false, t_out: self.now() });
       VNext::One(on)
     } else {
       if let Some(b) = self.bytes.as_mut() {
-        match b.read_tab() { Ok(None) => {} Ok(Some(_)) => { if self.byte_error.is_none() { self.byte_error = Some("real tablet reader returned an event although none was pending".into()); } } Err(er) => { if self.byte_error.is_none() { self.byte_error = Some(format!("real tablet reader failed: {}", er)); } } }
+        match b.read_tab() { Ok(None) => {} Ok(Some(_)) => { if self.no_wire_error() { self.byte_error = Some("real tablet reader returned an event although none was pending".into()); } } Err(er) => { if self.no_wire_error() { self.byte_error = Some(format!("real tablet reader failed: {}", er)); } } }
       }
-      if self.tab_ended || !self.has_tablet { self.trace.push(Item::NextT { res: None, end: true, t_out: self.now() }); VNext::End }
+      if self.tab_ended || !self.has_tablet {
+        if self.has_tablet { if let Some(b) = self.bytes.as_mut() {
+          b.unplug(true);
+          self.stats.os_enodev += 1;
+          match b.raw_next_tablet() {
+            Ok(VNext::End) => {}
+            Err(e) => { self.hw_failed = true; self.trace.push(Item::Fail { what: "next_tablet (ENODEV reported as an error by the driver)" }); return Err(format!("{}: {}", INJECTED, e)); }
+            Ok(VNext::Busy) => { if self.byte_error.is_none() { self.byte_error = Some("[driver] the tablet switch was unplugged (read fails with ENODEV) but the real driver told the loop Busy".into()); } }
+            Ok(VNext::One(on)) => { if self.byte_error.is_none() { self.byte_error = Some(format!("[driver] the tablet switch was unplugged (read fails with ENODEV) but the real driver handed out {}", on)); } }
+          }
+        } }
+        self.trace.push(Item::NextT { res: None, end: true, t_out: self.now() }); VNext::End
+      }
       else { self.trace.push(Item::NextT { res: None, end: false, t_out: self.now() }); VNext::Busy }
     };
     Ok(r)
@@ -504,7 +535,7 @@ impl<'a> VerifDriver for Sim<'a> {
     }
     let seen = match self.bytes.as_mut() {
       None => evs.clone(),
-      Some(b) => match b.send(evs) { Ok(d) => d, Err(e) => { if self.byte_error.is_none() { self.byte_error = Some(e); } b.take_actual().unwrap_or_else(|| evs.clone()) } }
+      Some(b) => match b.send(evs) { Ok(d) => d, Err(e) => { if self.byte_error.as_ref().map_or(true, |m| m.starts_with("[driver]")) { self.byte_error = Some(e); } b.take_actual().unwrap_or_else(|| evs.clone()) } }
     };
     self.trace.push(Item::Send { evs: seen, t_out: self.now() });
     Ok(())
